@@ -6,7 +6,7 @@ import ast
 import itertools
 
 from .. import lek
-from ..absbase import Logger
+from ..absbase import Logger, Ref
 from ..astq import U, call_name, calls, fn_walk
 from ..cfg import CFG
 from ..interp import Obj, Raised, Sym, Undecided
@@ -367,6 +367,7 @@ def r38_valid(repo, sink):
     sink.check(not missing, "R38", "defect-kinds-covered", f, ok="each defect kind is the only defect of some generated topology",
                bad=f"no generated topology has {missing} as its only defect: the table is too narrow")
     _metadata_links(repo, sink)
+    _adapter_metadata(repo, sink)
 
 
 def _metadata_links(repo, sink):
@@ -412,6 +413,53 @@ def _metadata_links(repo, sink):
     ok = isinstance(links, list) and len(links) == want
     sink.check(ok, "R38", "metadata-links", g, ok=f"{want} created links, {want} reported",
                bad=f"metadata reports {len(links) if isinstance(links, list) else links} links, {want} were created")
+
+
+def _adapter_metadata(repo, sink):
+    """Every adapter the composition collects can report its metadata - also one that hangs on an output without any consumer
+    behind it (validation accepts that: nothing is unconnected on the consumer side) and therefore never exchanged an info."""
+    from .exchange import ExchInterp, XInfo, _adapter, xinfo, G1, T1, U1, G2, T2, U2
+    if not repo.has_cls("Scale"):
+        return
+    cls = repo.cls("Scale")
+    g = repo.resolve(cls, "metadata", "getter")
+    if g is None:
+        sink.unknown("R38", "metadata:adapter", None, "Adapter.metadata not found")
+        return
+
+    class _M(ExchInterp):
+        def get_attr(self, obj, attr, node, mod):
+            if isinstance(obj, XInfo) and attr == "as_dict":
+                return Sym("as_dict", Ref(obj))
+            return super().get_attr(obj, attr, node, mod)
+
+        def call_hook(self, fv, args, kwargs, node, mod):
+            if isinstance(fv, Sym) and fv.op == "as_dict":
+                return {"info-of": fv.args[0].obj.label}
+            return super().call_hook(fv, args, kwargs, node, mod)
+
+    why = None
+    try:
+        for exchanged in (False, True):
+            ad = _adapter(repo, cls, linked=True, ctor={"scale": Sym("X", "scale")})
+            it = _M(repo, delivered=xinfo("src", G1, T1, U1))
+            if exchanged:
+                it.run(repo.resolve(cls, "get_info", "method"), [xinfo("req", G2, T2, U2)], self_obj=ad)
+            try:
+                md = it.run(g, [], self_obj=ad)
+            except Raised as r:
+                why = why or (f"the metadata of an adapter that {'has' if exchanged else 'never'} exchanged its info raises {r.name}"
+                              + ("" if exchanged else ": an adapter attached to an output with no consumer behind it passes validation and connect, "
+                                 "then Composition.metadata (the link list) cannot be obtained at all"))
+                continue
+            if not isinstance(md, dict) or "name" not in md or "class" not in md:
+                why = why or f"adapter metadata is {md!r}"
+            elif exchanged and "out_info" not in md:
+                why = why or "the metadata of a connected adapter does not report its output info"
+    except (Undecided, AnalysisError) as exc:
+        sink.unknown("R38", "metadata:adapter", g, f"outside vocabulary: {exc}")
+        return
+    sink.check(why is None, "R38", "metadata:adapter", g, ok="adapters report their metadata whether or not their info was exchanged", bad=why or "")
 
 
 def _slot_constructors(repo, sink):
